@@ -8,6 +8,11 @@
 //!                      pair line_col through a real parse (index truncated at b), Span::get bits,
 //!                      the Error fields and `format!("{}", Error::new_from_span(..))`
 //!   M:<a>:<b>:<c>:<d>:<str>   merge_spans of (a,b) and (c,d)
+//!   T:<tree>:<str>     a PairsBuilder tree `s-e[children],s-e,..` whose pairs need NOT be in source order
+//!                      and whose children may start after / reach past their parents (build() only rejects
+//!                      invalid spans): Pair::line_col of EVERY pair of the tree, in pre-order, `start@line,col|..`
+//!   U:<a>:<c>:<d>:<b>:<str>   a real parse (pest::state): rule over a..b containing a rule over c..d, input
+//!                      continuing after b (line index truncated at the last token): line_col of both pairs
 //! Panics are caught and printed as PANIC.
 use pest::error::{Error, ErrorVariant, InputLocation, LineColLocation};
 use pest::iterators::PairsBuilder;
@@ -123,6 +128,75 @@ fn obs_m(s: &str, a: usize, b: usize, c: usize, d: usize) -> String {
     ok_or_panic(catch(|| match pest::merge_spans(&x, &y) { Some(m) => format!("{}-{}", m.start(), m.end()), None => "none".to_string() }))
 }
 
+// ---- PairsBuilder trees
+struct Node { s: usize, e: usize, children: Vec<Node> }
+fn parse_nodes(b: &[u8], i: &mut usize) -> Vec<Node> {
+    let mut v = Vec::new();
+    loop {
+        let num = |i: &mut usize| { let mut x = 0usize; while *i < b.len() && b[*i].is_ascii_digit() { x = x * 10 + (b[*i] - b'0') as usize; *i += 1; } x };
+        let s = num(i);
+        if *i < b.len() && b[*i] == b'-' { *i += 1; }
+        let e = num(i);
+        let mut children = Vec::new();
+        if *i < b.len() && b[*i] == b'[' { *i += 1; children = parse_nodes(b, i); if *i < b.len() && b[*i] == b']' { *i += 1; } }
+        v.push(Node { s, e, children });
+        if *i < b.len() && b[*i] == b',' { *i += 1; } else { break; }
+    }
+    v
+}
+fn add_nodes<'i>(mut b: PairsBuilder<'i, Rule>, nodes: &[Node]) -> PairsBuilder<'i, Rule> {
+    for n in nodes {
+        b = if n.children.is_empty() { b.rule(Rule::r, n.s, n.e) } else { b.rule_with(Rule::r, n.s, n.e, |bb| add_nodes(bb, &n.children)) };
+    }
+    b
+}
+fn walk<'i>(pairs: pest::iterators::Pairs<'i, Rule>, o: &mut Vec<String>) {
+    for p in pairs { o.push(format!("{}@{}", p.as_span().start(), lc(p.line_col()))); walk(p.into_inner(), o); }
+}
+fn obs_t(s: &str, spec: &str) -> String {
+    let nodes = parse_nodes(spec.as_bytes(), &mut 0);
+    ok_or_panic(catch(|| {
+        let pairs = add_nodes(PairsBuilder::new(s), &nodes).build();
+        let mut o = Vec::new();
+        walk(pairs.clone(), &mut o);
+        let f: Vec<String> = pairs.flatten().map(|p| format!("{}@{}", p.as_span().start(), lc(p.line_col()))).collect();
+        if f != o { return "FLATDIFF".to_string(); }
+        o.join("|")
+    }))
+}
+/// a pair starts after the last queued token (= end of the last top-level node) with a line break in between
+fn tree_nontrivial(s: &str, spec: &str) -> bool {
+    let nodes = parse_nodes(spec.as_bytes(), &mut 0);
+    let last = nodes.last().map(|n| n.e).unwrap_or(0);
+    fn any(ns: &[Node], f: &dyn Fn(&Node) -> bool) -> bool { ns.iter().any(|n| f(n) || any(&n.children, f)) }
+    any(&nodes, &|n| n.s > last && s.is_char_boundary(last) && s.is_char_boundary(n.s) && s[last..n.s].contains('\n'))
+}
+fn gen_tree(rng: &mut Rng, bs: &[usize], depth: u32) -> String {
+    let n = rng.range(1, 3);
+    let mut parts = Vec::new();
+    for _ in 0..n {
+        let a = *rng.pick(bs); let b = *rng.pick(bs);
+        let (a, b) = if a <= b { (a, b) } else { (b, a) };
+        let mut p = format!("{}-{}", a, b);
+        if depth < 2 && rng.chance(1, 3) { p.push('['); p.push_str(&gen_tree(rng, bs, depth + 1)); p.push(']'); }
+        parts.push(p);
+    }
+    parts.join(",")
+}
+fn obs_u(s: &str, a: usize, c: usize, d: usize, b: usize) -> String {
+    if !(a <= c && c <= d && d <= b && [a, c, d, b].iter().all(|&x| s.is_char_boundary(x) && x <= s.len())) { return "NOSPAN".to_string(); }
+    let n = |x: usize, y: usize| s[x..y].chars().count();
+    let (n1, n2, n3, n4) = (n(0, a), n(a, c), n(c, d), n(d, b));
+    ok_or_panic(catch(|| {
+        let r = pest::state::<Rule, _>(s, |st| st.skip(n1).and_then(|st| st.rule(Rule::r, |st|
+            st.skip(n2).and_then(|st| st.rule(Rule::r, |st| st.skip(n3))).and_then(|st| st.skip(n4)))));
+        match r {
+            Ok(pairs) => { let mut o = Vec::new(); walk(pairs, &mut o); o.join("|") }
+            Err(_) => "PARSEERR".to_string(),
+        }
+    }))
+}
+
 struct Out<'a> { w: BufWriter<io::StdoutLock<'a>>, n: u64, nontriv: u64, seen: HashSet<u64> }
 impl<'a> Out<'a> {
     fn emit(&mut self, case: String, obs: String, nontrivial: bool) {
@@ -140,14 +214,14 @@ impl<'a> Out<'a> {
 /// non-trivial position case: the prefix holds a newline or a multi-byte char or a CR/tab
 fn interesting(s: &str, a: usize) -> bool { s[..a].chars().any(|c| c == '\n' || c == '\r' || c == '\t' || c.len_utf8() > 1) }
 
-fn all_cases(out: &mut Out, s: &str, pair_limit: Option<(&mut Rng, usize)>, with_s: bool, quads: bool) {
+fn all_cases(out: &mut Out, s: &str, rng: &mut Rng, pair_limit: Option<usize>, with_s: bool, quads: bool) {
     let e = esc(s);
     if with_s { out.emit(format!("S:{}", e), obs_s(s), s.chars().any(|c| c.len_utf8() > 1)); }
     let bs = boundaries(s);
     for &a in &bs { out.emit(format!("P:{}:{}", a, e), obs_p(s, a), interesting(s, a)); }
     let mut pairs: Vec<(usize, usize)> = Vec::new();
     for (i, &a) in bs.iter().enumerate() { for &b in &bs[i..] { pairs.push((a, b)); } }
-    if let Some((rng, k)) = pair_limit {
+    if let Some(k) = pair_limit {
         if pairs.len() > k {
             let mut sel = Vec::new();
             for _ in 0..k { let i = rng.below(pairs.len() as u64) as usize; sel.push(pairs.swap_remove(i)); }
@@ -155,6 +229,17 @@ fn all_cases(out: &mut Out, s: &str, pair_limit: Option<(&mut Rng, usize)>, with
         }
     }
     for &(a, b) in &pairs { out.emit(format!("Q:{}:{}:{}", a, b, e), obs_q(s, a, b), s[..b].contains('\n') || interesting(s, b)); }
+    // PairsBuilder trees out of source order: a pair at x queued BEFORE a pair at 0, and a child at x of a parent 0..0
+    // (in both the last queued token is at offset 0), then random trees
+    let mut trees: Vec<String> = Vec::new();
+    for &x in &bs { if x > 0 { trees.push(format!("{}-{},0-0", x, x)); trees.push(format!("0-0[{}-{}]", x, s.len())); } }
+    for _ in 0..2 { trees.push(gen_tree(rng, &bs, 0)); }
+    for t in &trees { out.emit(format!("T:{}:{}", t, e), obs_t(s, t), tree_nontrivial(s, t)); }
+    // real parses with nested rules, the input continuing after the last token
+    for _ in 0..3 {
+        let mut q = [*rng.pick(&bs), *rng.pick(&bs), *rng.pick(&bs), *rng.pick(&bs)]; q.sort();
+        out.emit(format!("U:{}:{}:{}:{}:{}", q[0], q[1], q[2], q[3], e), obs_u(s, q[0], q[1], q[2], q[3]), q[3] < s.len() && s[..q[1]].contains('\n'));
+    }
     if quads {
         for &a in &bs { for &b in &bs { if a <= b { for &c in &bs { for &d in &bs { if c <= d {
             out.emit(format!("M:{}:{}:{}:{}:{}", a, b, c, d, e), obs_m(s, a, b, c, d), true);
@@ -202,7 +287,8 @@ fn main() {
                 if idx % m != k { continue; }
                 let mut s = String::new(); let mut x = idx;
                 for _ in 0..l { s.push(ALPHA[(x % 6) as usize]); x /= 6; }
-                all_cases(&mut out, &s, None, l <= 4, l <= 2);
+                let mut rng = Rng::new(idx.wrapping_mul(0x9E37).wrapping_add(l as u64));
+                all_cases(&mut out, &s, &mut rng, None, l <= 4, l <= 2);
             }
         }
         "random" => {
@@ -211,7 +297,7 @@ fn main() {
             for i in 0..n {
                 let s = random_string(&mut rng, i % 4);
                 let mut r2 = rng.clone(); rng.next();
-                all_cases(&mut out, &s, Some((&mut r2, k)), s.len() <= 16, false);
+                all_cases(&mut out, &s, &mut r2, Some(k), s.len() <= 16, false);
             }
         }
         // which state is the tree in?  K2 witness: "\nab\ncd" span 0..2 renders the continued line raw
@@ -228,7 +314,7 @@ fn main() {
             return;
         }
         // every case of one (escaped) string
-        "one" => { let s = unesc(&arg(2)); all_cases(&mut out, &s, None, true, s.chars().count() <= 3); }
+        "one" => { let s = unesc(&arg(2)); let mut rng = Rng::new(s.len() as u64); all_cases(&mut out, &s, &mut rng, None, true, s.chars().count() <= 3); }
         // a single case line
         "case" => {
             let c = arg(2);
@@ -239,6 +325,8 @@ fn main() {
                 "P" => { let p: Vec<&str> = c.splitn(3, ':').collect(); let s = unesc(p[2]); out.emit(c.clone(), obs_p(&s, num(1)), true); }
                 "Q" => { let p: Vec<&str> = c.splitn(4, ':').collect(); let s = unesc(p[3]); out.emit(c.clone(), obs_q(&s, num(1), num(2)), true); }
                 "M" => { let s = unesc(parts[5]); out.emit(c.clone(), obs_m(&s, num(1), num(2), num(3), num(4)), true); }
+                "U" => { let s = unesc(parts[5]); out.emit(c.clone(), obs_u(&s, num(1), num(2), num(3), num(4)), true); }
+                "T" => { let p: Vec<&str> = c.splitn(3, ':').collect(); let s = unesc(p[2]); out.emit(c.clone(), obs_t(&s, p[1]), true); }
                 _ => {}
             }
         }
